@@ -91,6 +91,8 @@ class Fn:
             return None
         if k == "slice":
             return self.ty(e[1], env)
+        if k == "try" and self.spec.get("try_transparent"):
+            return self.ty(e[1], env)
         if k == "index":
             t = self.ty(e[1], env)
             if t:
@@ -107,6 +109,15 @@ class Fn:
                 return "bool"
             if e[2] in ("copied", "cloned", "clone", "collect", "to_string_lossy", "chain", "iter", "ok", "to_string", "to_owned"):
                 return self.ty(e[1], env)
+            if e[2] == "map" and len(e[3]) == 1 and e[3][0][0] == "closure" and len(e[3][0][1]) == 1:
+                m = re.match(r"Option<(.*)>$", self.ty(e[1], env) or "")
+                if m:
+                    try:
+                        _ps, add = self.pat(e[3][0][1][0], env, m.group(1))
+                    except Unsupported:
+                        return None
+                    t = self.ty(e[3][0][2], dict(env, **add))
+                    return "Option<%s>" % t if t else None
             if ("." + e[2]) in self.calls:
                 rt = self.calls["." + e[2]][1]
                 return rt(self.ty(e[1], env)) if callable(rt) else rt
@@ -381,6 +392,13 @@ class Fn:
                 env2 = dict(env, **add)
                 dflt = "false" if name == "is_some_and" else self.ex(args[0], env)
                 return "(match %s with Some %s => %s | None => %s end)" % (self.ex(recv, env), paren(ps), self.ex(clo[2], env2), dflt)
+            if name == "map" and len(args) == 1 and args[0][0] == "closure" and re.match(r"Option<(.*)>$", self.ty(recv, env) or ""):
+                clo = args[0]
+                if len(clo[1]) != 1:
+                    raise Unsupported("closure arity")
+                m = re.match(r"Option<(.*)>$", self.ty(recv, env))
+                ps, add = self.pat(clo[1][0], env, m.group(1))
+                return "(match %s with Some %s => Some %s | None => None end)" % (self.ex(recv, env), paren(ps), paren(self.ex(clo[2], dict(env, **add))))
             if name == "saturating_add" and len(args) == 1:
                 t = self.ty(recv, env)
                 if t not in WIDTH:
@@ -667,6 +685,9 @@ class Fn:
                     v = root(n[1])
                     if v is not None and v not in out:
                         out.append(v)
+                if n and n[0] == "mcall" and n[1][0] == "path" and len(n[1][1]) == 1 and (n[1][1][0] + "." + n[2]) in self.spec.get("state_calls", {}):
+                    if self.spec["state"] not in out:
+                        out.append(self.spec["state"])
                 if n and n[0] == "expr" and n[1][0] == "mcall" and n[1][2] in MUTATORS:
                     v = root(n[1][1])
                     if v is not None and v not in out:
@@ -743,6 +764,16 @@ class Fn:
                         raise Unsupported("%s is called outside the closure passed to with_commit_lock" % "::".join(e0[1][1]))
                     tmpl = self.spec["state_updates"]["::".join(e0[1][1])]
                     return "let %s := %s in %s" % (st, self.apply(tmpl, [self.ex(a, env) for a in e0[2]]), after(env))
+            # let x = obj.method(..)?;  where the method acts on the state and returns a value
+            if k == "let" and s[1][0] == "pbind" and s[3] is not None:
+                e2 = s[3]
+                while e2[0] == "try":
+                    e2 = e2[1]
+                if e2[0] == "mcall" and e2[1][0] == "path" and len(e2[1][1]) == 1 and (e2[1][1][0] + "." + e2[2]) in self.spec.get("state_calls", {}):
+                    tmpl = self.spec["state_calls"][e2[1][1][0] + "." + e2[2]]
+                    return "let '(%s, %s) := %s in %s" % (st, self.var(s[1][1]), self.apply(tmpl, [self.ex(a, env) for a in e2[3]]), after(dict(env, **{s[1][1]: None})))
+            if k == "expr" and s[1][0] == "mcall" and s[1][1][0] == "path" and len(s[1][1][1]) == 1 and (s[1][1][1][0] + "." + s[1][2]) in self.spec.get("ignored_mcalls", ()):
+                return after(env)
             # let x = inlined_closure_call(.., || body)?;   ->  let '(state, x) := <body as (state, value)> in
             if k == "let" and s[1][0] == "pbind" and s[3] is not None:
                 e1 = s[3]
@@ -897,6 +928,8 @@ class Fn:
                     raise Unsupported("continue outside a loop")
                 return ctx.cont(env)
             if e[0] == "macro" and e[1] in ("debug_assert", "debug_assert_eq", "debug_assert_ne"):
+                return after(env)
+            if e[0] == "macro" and e[1] in ("println", "eprintln") and self.spec.get("prints_ignored"):
                 return after(env)
             if e[0] in ("if", "iflet", "match", "block"):
                 # statement position: every branch continues with the rest of the block (duplicated)
@@ -1280,6 +1313,20 @@ def functions():
         return "Definition g_handle_put (t : tree) (path : bytes) (expected : option D) (len : Z) (hash : D) (content : bytes) : tree * sreply :=\n  %s." % text
     out.append(("handle_put", "src/bin/copia/serve.rs handle_put", None, t_handle_put))
 
+    def t_hub_sync():
+        src = read("src/bin/copia/hub.rs")
+        spec = dict(signature=[("local_root", "Path"), ("target", "str")], state="t", try_transparent=True,
+                    calls={"HubClient::connect": ("tt (* {0} *)", "Client"), ".list": ("L (* {0} *)", "HubMap"),
+                           "discover_local_fingerprints": ("local (* {0} *)", "Vec<(PathBuf,Fingerprint)>"),
+                           ".to_string_lossy": ("{0}", "String"), ".into_owned": ("{0}", "String"),
+                           ".get": ("{0} !! {1}", "Option<Fingerprint>"), ".join": ("lfile {1}", "Vec<u8>")},
+                    fields={("Fingerprint", "blake3"): ("{0}", "[u8;32]")},
+                    state_calls={"client.put": "cput t {0} {1} {2} {3}"}, ignored_mcalls=["client.bye"], prints_ignored=True,
+                    eq={"Option<[u8;32]>": "deq_ob", "u64": "Z.eqb"},
+                    ok=lambda s_: "(t, (sent, skipped, conflicts), true)", errs=[(r"CAS conflict", "(t, (sent, skipped, conflicts), false)")])
+        return translate_fn(src, "hub_sync", None, spec, "g_hub_sync", "(L : gmap K D) (t : tree) (local : list (K * D))", "tree * (Z * Z * Z) * bool")
+    out.append(("hub_sync", "src/bin/copia/hub.rs hub_sync", None, t_hub_sync))
+
     def t_cas():
         src = read("src/bin/copia/wire.rs")
         check_enum(src, "Cas", ["Commit", "Conflict"])
@@ -1397,6 +1444,7 @@ GROUPS = {
     "WireMagic": ("Model.Wire", False, ["read_magic"]),
     "BisyncApply": ("", "bisync", ["apply"]),
     "HubDelete": ("", "hubseq", ["handle_delete", "handle_put"]),
+    "HubSync": ("", "hubsync", ["hub_sync"]),
     "BisyncSys": ("", "bisyncsys", ["copy_atomic"]),
     "ArchiveSave": ("Model.ArchiveSys", "archivesys", ["archive_save"]),
     "OneWaySys": ("Model.OneWaySys", "onewaysys", ["tmp_path", "deliver_local", "deliver_pull"]),
@@ -1453,6 +1501,16 @@ def main():
                     "Inductive staging := mk_staging (dst : bytes).\n"
                     "Definition rm_staging (s : staging) (t : tree) : tree := t.\n"
                     "Definition mv_staging (s : staging) (to : bytes) (c : bytes) (t : tree) : tree := <[to := c]> t.\n\n" + "\n".join(texts) + "End WithHub.\n")
+        elif digest == "hubsync":
+            body = ("(** GENERATED by tools/gen_logic.py from /repo's CURRENT source - do not edit.\n    hub.rs `hub_sync` as a function of the listing it received (L), the hub tree its Puts act on (t, through the hub\n"
+                    "    specification of Model/Hub.v) and the local fingerprints in path order; `lfile p` is the content of the local\n"
+                    "    file at `local_root/p` when it is streamed. Result: the hub tree, (sent, skipped, conflicts), exit status ok. *)\n"
+                    "From stdpp Require Import gmap.\nFrom Copia Require Import Model.LoopLib Model.Hub Model.HubClient.\n\n"
+                    "Section WithClient.\nContext `{Countable K} {D : Type} `{EqDecision D}.\nVariable Hh : list Z -> D.\nVariable cname : K -> D -> K.\n"
+                    "Variable lfile : K -> list Z.\nNotation tree := (gmap K (list Z)).\n"
+                    "Definition cput (t : tree) (p : K) (e : option D) (c : list Z) (h : D) : tree * bool :=\n"
+                    "  let '(t', rp) := spec Hh cname t (Put p e h (Z.of_nat (length c)) [c]) in (t', is_committed rp).\n"
+                    "Definition deq_ob (x y : option D) : bool := bool_decide (x = y).\n\n" + "\n".join(texts) + "End WithClient.\n")
         elif digest == "archivesys":
             body = (HEADER % (group, imports)) + "\nSection WithFs.\nVariable path_exists : apath -> bool.   (* path.exists() *)\n\n" + "\n".join(texts) + "End WithFs.\n"
         elif digest == "onewaysys":
